@@ -25,6 +25,7 @@ func runC12(c *core.Ctx) {
 	const pkg = "pdf/font/charcode"
 	defer ruleDecodeConsumption(c)
 	defer ruleNoAmbiguousKeys(c)
+	defer ruleAppendCodeShifts(c)
 	defer ruleNoStaleElementPointers(c, "C12-R9", "pdf/font/charcode")
 	defer ruleMethodsPure(c, "C12-R12", "pdf/font/charcode", 3, func(fn *core.Func, recv types.Type) bool {
 		return core.IsNamed(recv, "pdf/font/charcode", "Codec") // a Codec is immutable after NewCodec and shared between fonts and goroutines
@@ -736,5 +737,123 @@ func ruleNoStaleElementPointers(c *core.Ctx, rule, pk string) {
 		if nPtr == 0 {
 			o.Count(1)
 		}
+	})
+}
+
+// ruleAppendCodeShifts (C12-R13): AppendCode emits the bytes of a code from
+// the least significant end: each byte(code) that is appended must be
+// followed by code >>= 8 before the next one is appended (the sibling of the
+// consumption rule for Decode).  A missing shift emits one byte twice, so
+// decode(encode(c)) != c for invalid multi-byte codes.
+func ruleAppendCodeShifts(c *core.Ctx) {
+	const pkg = "pdf/font/charcode"
+	c.Check("C12-R13", pkg+".(*Codec).AppendCode/shift", "between two appends of byte(code) the code is shifted by one byte", func(o *core.Ob) {
+		fn := c.Prog.Func(pkg, "(*Codec).AppendCode")
+		g := fn.Graph()
+		info := fn.Info()
+		code := paramObj(fn, "code")
+		var uses, shifts []*core.V
+		for _, v := range g.Vs {
+			if v.AST == nil {
+				continue
+			}
+			isShift, isUse := false, false
+			if as, ok := v.AST.(*ast.AssignStmt); ok {
+				if as.Tok == token.SHR_ASSIGN && len(as.Lhs) == 1 && core.ObjOf(info, as.Lhs[0]) == code {
+					if k, ok := core.IntConst(info, as.Rhs[0]); ok && k == 8 {
+						isShift = true
+					}
+				}
+			}
+			var node ast.Node = v.AST
+			if v.Cond != nil && v.Cond.Expr != nil {
+				node = v.Cond.Expr
+			}
+			ast.Inspect(node, func(m ast.Node) bool {
+				call, ok := m.(*ast.CallExpr)
+				if !ok || len(call.Args) != 1 {
+					return true
+				}
+				if tv, ok := info.Types[call.Fun]; ok && tv.IsType() {
+					if b, ok := tv.Type.Underlying().(*types.Basic); ok && b.Kind() == types.Uint8 && core.ObjOf(info, call.Args[0]) == code {
+						isUse = true
+					}
+				}
+				return true
+			})
+			if isShift {
+				shifts = append(shifts, v)
+			} else if isUse {
+				uses = append(uses, v)
+			}
+		}
+		o.Fact("%d byte(code) sites, %d shifts", len(uses), len(shifts))
+		o.Require(len(uses) >= 3 && len(shifts) >= 2, "byte(code)/shift sites not found")
+		for _, u := range uses {
+			o.Count(1)
+			after := g.ReachFrom(u, false, core.AvoidVs(shifts...))
+			for _, u2 := range uses {
+				if after[u2] {
+					o.FailAt(fn.Site(u2.AST, "same byte emitted again"), "%s: the byte emitted at %s is emitted again at %s without code >>= 8 in between", c.Prog.Pos(u2.AST.Pos()), c.Prog.Pos(u.AST.Pos()), c.Prog.Pos(u2.AST.Pos()))
+					break
+				}
+			}
+		}
+	})
+	// matchLen looks at every range: the set it describes does not depend on the order of the ranges
+	c.Check("C12-R13", pkg+".CodeSpaceRange.matchLen/order-free", "the reference matcher examines every range: the loop over the ranges is left early only by returning a match", func(o *core.Ob) {
+		fn := c.Prog.Func(pkg, "CodeSpaceRange.matchLen")
+		info := fn.Info()
+		var outer *ast.RangeStmt
+		ast.Inspect(fn.Decl.Body, func(m ast.Node) bool {
+			if rs, ok := m.(*ast.RangeStmt); ok && outer == nil {
+				outer = rs
+			}
+			return outer == nil
+		})
+		if outer == nil {
+			core.Undecided("loop over the ranges not found")
+		}
+		o.At(fn.Site(outer, "loop over the ranges"))
+		// breaks that belong to the outer loop; returns of a non-positive value inside the loop
+		var walk func(n ast.Node, inner int)
+		walk = func(n ast.Node, inner int) {
+			ast.Inspect(n, func(m ast.Node) bool {
+				switch x := m.(type) {
+				case *ast.ForStmt:
+					if m != n {
+						walk(x.Body, inner+1)
+						return false
+					}
+				case *ast.RangeStmt:
+					if m != n {
+						walk(x.Body, inner+1)
+						return false
+					}
+				case *ast.SwitchStmt, *ast.TypeSwitchStmt, *ast.SelectStmt:
+					if m != n {
+						walk(m, inner+1)
+						return false
+					}
+				case *ast.BranchStmt:
+					o.Count(1)
+					if x.Tok == token.BREAK && inner == 0 && x.Label == nil {
+						o.FailAt(fn.Site(x, ""), "%s: the loop over the ranges is abandoned before all ranges were examined: the result depends on the order in which the caller lists the ranges", c.Prog.Pos(x.Pos()))
+					}
+					if x.Tok == token.GOTO || (x.Label != nil && x.Tok == token.BREAK) {
+						o.FailAt(fn.Site(x, ""), "%s: labelled exit from the loop over the ranges", c.Prog.Pos(x.Pos()))
+					}
+				case *ast.ReturnStmt:
+					o.Count(1)
+					if len(x.Results) == 1 {
+						if k, ok := core.IntConst(info, x.Results[0]); ok && k == 0 {
+							o.FailAt(fn.Site(x, ""), "%s: 'no match' is returned from inside the loop, before all ranges were examined", c.Prog.Pos(x.Pos()))
+						}
+					}
+				}
+				return true
+			})
+		}
+		walk(outer.Body, 0)
 	})
 }
